@@ -133,6 +133,17 @@ def many_cases(thorough):
         yield {"members": ms, "mode": "v", "filters": [hx(b"member000??.dat"), hx(b"*99.dat")]}
 
 
+def duplicate_cases(thorough):
+    """the same stored path more than once in an archive: every copy is a row, whatever selects it"""
+    d = lambda n: hx(DATA[:n])
+    ms = [dict(base(2, name=b"dup.txt", size=5), data=d(5)), dict(base(2, name=b"other.c", size=7), data=d(7)), dict(base(1, name=b"dup.txt", size=9), data=d(9)),
+          dict(base(2, size=3, exts=[[2, hx(b"d\xff")], [1, hx(b"dup.txt")]]), data=d(3)), dict(base(2, name=b"dup.txt", size=11), data=d(11))]
+    for mode in ("l", "lv", "v", "vv"):
+        for q in ("", "q1"):
+            for filters in ([], [hx(b"dup.txt")], [hx(b"dup.txt"), hx(b"other.c")], [hx(b"d/dup.txt")], [hx(b"dup.???")], [hx(b"other.c")], [hx(b"dup.txt"), hx(b"dup.txt")]):
+                yield {"members": ms, "mode": mode, "q": q, "filters": filters}
+
+
 def long_glob_cases(thorough):
     """wildcards decide on the whole stored path, however long it is"""
     for L in (250, 255, 256, 257, 300, 1000) + ((5000,) if thorough else ()):
@@ -153,13 +164,14 @@ def london_cases(thorough):
 def run(ctx):
     cliprop.run_space(ctx, "props.cli_c19", "members", cases(ctx.thorough), chunk=32)
     cliprop.run_space(ctx, "props.cli_c19", "many", many_cases(ctx.thorough), chunk=1)
+    cliprop.run_space(ctx, "props.cli_c19", "duplicates", duplicate_cases(ctx.thorough), chunk=4)
     cliprop.run_space(ctx, "props.cli_c19", "long-glob", long_glob_cases(ctx.thorough), chunk=4)
     cliprop.run_space(ctx, "props.cli_c19", "members-london", london_cases(ctx.thorough), env={"TZ": "Europe/London"}, chunk=32)
     ctx.assumptions += ["vlib/listrender.py reproduces all 720 listings recorded from the original Unix LHA tool (./check selftest); header fields come from the C reference parser/normaliser (ref_hdrjson), float32 ratio arithmetic is emulated exactly",
                         "totals are kept below 2^32 (the statement says 'sums'; a 32-bit total is not decidable from it); fixed 'now' through TEST_NOW_TIME, archive mtime set with utime"]
     return ctx.finish(
         rule="single-member archives varying one column at a time over its boundary values (size x packed over {0,1,9999999,10^7,2^31,2^32-1} x levels; all 256 OS types; each permission bit x type nibble; all 128 OS-9 words; uid/gid boundaries; 15 Unix and 7 DOS timestamps around the six-month boundary, 0 and 2^32-1; name lengths 0..40 and 300; names, directory parts and link targets of 250..260, 511..513, 1023..1025 and 4000 (thorough 8191..8193, 20000) bytes; links and directories at every level; every method name) x {l, lv, v, vv}; "
-             "archives of 0/1/2/5 members x 4 modes x quiet {none,q0,q1,q2,q} x 9 wildcard lists x spellings of the command word (quiet before/after the verbose modifier, with/without the leading '-') (incl. backtracking patterns); wildcard lists against stored paths of 250..1000 (5000) bytes; names holding printf conversion specifications; archives of 255/256/257/1000 (thorough 65537) members with and without wildcard lists; a DST-bearing zone (Europe/London) for the time columns. Oracle: stdout equals the reference rendering byte for byte. non-trivial = cases with at least one selected row",
+             "archives of 0/1/2/5 members x 4 modes x quiet {none,q0,q1,q2,q} x 9 wildcard lists x spellings of the command word (quiet before/after the verbose modifier, with/without the leading '-') (incl. backtracking patterns); an archive that stores one path four times, under literal and wildcard arguments; wildcard lists against stored paths of 250..1000 (5000) bytes; names holding printf conversion specifications; archives of 255/256/257/1000 (thorough 65537) members with and without wildcard lists; a DST-bearing zone (Europe/London) for the time columns. Oracle: stdout equals the reference rendering byte for byte. non-trivial = cases with at least one selected row",
         replay_fn=lambda rep: cliprop.replay_case(rep))
 
 
